@@ -1952,6 +1952,129 @@ def wide_stream(ctx, n_random, n_hmm):
             ctx.case(nontrivial_key=("hmm", shape_key(c)))
 
 
+# ----------------------------------------------------------------------------------------------
+# the einsum front ends (funsor.einsum.naive_einsum / einsum) under the tape
+# ----------------------------------------------------------------------------------------------
+
+EINSUM_SNIPPET = """
+import sys
+sys.path.insert(0, "/verif")
+from fv.harness import c11
+w = {w!r}
+status, detail = c11.run_einsum(w)
+print(status, detail)
+FAILS = status == "wrong"
+"""
+
+
+def run_einsum(w):
+    """One einsum case: forward value and every CALLER operand's adjoint against brute force (numpy einsum
+    of all other operand occurrences, summed over the occurrences of the operand)."""
+    from funsor.einsum import einsum as f_einsum, naive_einsum as f_naive
+    impl = {"naive_einsum": f_naive, "einsum": f_einsum}[w["impl"]]
+    log = w["sr"] != "add-mul"
+    sum_op, prod_op = (ops.logaddexp, ops.add) if log else (ops.add, ops.mul)
+    backend = "funsor.einsum.numpy_log" if log else "numpy"
+    sizes = w["sizes"]
+    tensors, arrays = {}, {}
+    for name, (stored, data) in w["leaves"].items():
+        arr = np.array(data, dtype=np.float64)
+        arrays[name] = arr
+        tensors[name] = Tensor(to_impl_data(arr, w["sr"]), OrderedDict((d, Bint[sizes[d]]) for d in stored))
+    subs, names, out = w["subs"], w["operands"], w["output"]
+    eqn = ",".join(subs) + "->" + out
+    try:
+        with np.errstate(all="ignore"):
+            with AdjointTape() as tape:
+                fwd = impl(eqn, *[tensors[nm] for nm in names], backend=backend)
+            adj = tape.adjoint(sum_op, prod_op, fwd, tuple(tensors.values()))
+    except (AssertionError, ValueError, NotImplementedError, KeyError, TypeError, IndexError) as ex:
+        return "declined", type(ex).__name__
+
+    def lin(f, dims):
+        t = futil.table(f, [(d, sizes[d]) for d in dims])
+        return None if t is None else (np.exp(t) if log else t)
+    # operand arrays in subscript order
+    opnd = []
+    for nm, sub in zip(names, subs):
+        stored = w["leaves"][nm][0]
+        opnd.append(np.transpose(arrays[nm], [stored.index(d) for d in sub]) if sub else arrays[nm])
+    try:
+        ft = lin(fwd, list(out))
+    except (KeyError, ValueError) as ex:
+        return "wrong", f"forward inputs: {ex}"
+    if ft is None:
+        return "declined", "lazy"
+    want_f = np.einsum(eqn, *opnd)
+    if not np.allclose(ft, want_f, rtol=1e-9, atol=0):
+        return "wrong", f"forward {np.asarray(ft).tolist()} != {np.asarray(want_f).tolist()}"
+    for nm, (stored, _) in w["leaves"].items():
+        want = np.zeros([sizes[d] for d in stored])
+        for i, (onm, sub) in enumerate(zip(names, subs)):
+            if onm != nm:
+                continue
+            others = [s_ for j, s_ in enumerate(subs) if j != i]
+            rest = [a_ for j, a_ in enumerate(opnd) if j != i]
+            # derivative of (sum over the outputs of) the root w.r.t. this occurrence, then broadcast over
+            # dims of the occurrence that no other operand mentions
+            g = np.einsum(",".join(others) + "->" + "".join(d for d in sub if any(d in o for o in others)), *rest) \
+                if rest else np.array(1.0)
+            have = [d for d in sub if any(d in o for o in others)]
+            g = np.broadcast_to(np.asarray(g).reshape([sizes[d] if d in have else 1 for d in sub]),
+                                [sizes[d] for d in sub])
+            want = want + np.transpose(g, [sub.index(d) for d in stored]) if sub else want + g
+        f = adj[tensors[nm]]
+        extra = [d for d in out if d not in stored]
+        try:
+            t = lin(f, list(stored) + extra)
+        except (KeyError, ValueError) as ex:
+            return "wrong", f"adjoint of {nm}: inputs {ex}"
+        if t is None:
+            return "declined", "lazy-adjoint"
+        t = np.asarray(t).reshape([sizes[d] for d in stored] + [-1]).sum(-1)
+        if not np.allclose(t, want, rtol=1e-9, atol=0):
+            return "wrong", f"adjoint of {nm} (stored {stored}): {np.asarray(t).tolist()} != {np.asarray(want).tolist()}"
+    return "ok", None
+
+
+def einsum_stream(ctx, n):
+    rng = ctx.rng
+    for _ in range(n):
+        dims = "abcd"
+        sizes = {d: rng.choice([1, 2, 2, 3]) for d in dims}
+        nop = rng.choice([2, 2, 3])
+        leaves, operands, subs = {}, [], []
+        for i in range(nop):
+            if leaves and rng.random() < 0.3:
+                nm = rng.choice(sorted(leaves))                  # the same operand again, possibly spelled differently
+                stored = leaves[nm][0]
+                sub = list(stored)
+                rng.shuffle(sub)
+            else:
+                nm = "xyz"[len(leaves)]
+                sub = rng.sample(dims, rng.choice([0, 1, 1, 2, 2, 2]))
+                stored = list(sub)
+                if rng.random() < 0.5:
+                    stored.reverse()                             # stored input order differs from the subscript
+                leaves[nm] = ("".join(stored), gen_data(rng, tuple(sizes[d] for d in stored), nonzero=True).tolist())
+            operands.append(nm)
+            subs.append("".join(sub))
+        used = sorted(set("".join(subs)))
+        out = "".join(d for d in used if rng.random() < 0.25)
+        w = dict(impl=rng.choice(["naive_einsum", "naive_einsum", "einsum"]), sr=rng.choice(["add-mul", "logaddexp-add"]),
+                 sizes=sizes, leaves=leaves, operands=operands, subs=subs, output=out)
+        status, detail = run_einsum(w)
+        permuted = any(leaves[nm][0] != sub for nm, sub in zip(operands, subs))
+        ctx.count(f"einsum:{w['impl']}:{status}" + (":permuted" if permuted else "") +
+                  (":repeated" if len(set(operands)) < len(operands) else ""))
+        if status == "wrong":
+            ctx.fail("input", "C11.einsum-front-end", witness=w, expected="brute force", got=detail,
+                     python=EINSUM_SNIPPET.format(w=w))
+            return
+        if status == "ok":
+            ctx.case(nontrivial_key=repr(sorted((k, repr(v)) for k, v in w.items())) if nop >= 2 else None)
+
+
 def nested_cases(rng):
     """Nested reductions that reuse the same variable name at 2-3 levels (an inner binder named like an
     outer one that is still free in between), in both semirings, plain and through apply_optimizer — the
@@ -2054,6 +2177,7 @@ def correspond(ctx):
     identity_stream(ctx, 1 if ctx.tier == "quick" else 6)
     scatter_stream(ctx, 20 if ctx.tier == "quick" else 100)
     wide_stream(ctx, 120 if ctx.tier == "quick" else 1500, 30 if ctx.tier == "quick" else 300)
+    einsum_stream(ctx, 150 if ctx.tier == "quick" else 2000)
     ctx.assumptions.append("float64 arithmetic on small integers / dyadic rationals is exact; the log semiring, and (add,mul) terms containing a product-reduce (safediv = multiplication by a rounded reciprocal), are compared in linear space with rtol 1e-9; magnitudes beyond 2**50 with rtol 1e-12")
     ctx.assumptions.append("with apply_optimizer the leaves are the tensors of the optimizer's output (its unfold pass evaluates Subs(Tensor) eagerly, outside the tape); the output is re-read into the model's syntax modulo __BOUND suffixes exactly as AdjointTape.adjoint un-mangles names")
     ctx.assumptions.append("wide-range log weights (offsets 0/-30/-300/-800/-2000 per leaf and per first-axis element, -inf cells; 3-step homogeneous HMM with one shared transition leaf) are compared in log space against an exact oracle (Laurent polynomials in e, logs by the max-shifted form): finite iff the oracle is finite, rtol 1e-9 on the log value; plain path only — the optimizer's log-einsum kernel is the region of the open KF-logeinsum-underflow (C10)")
@@ -2076,7 +2200,7 @@ def search(ctx, broken):
 
 def replay(ctx, doc):
     w = doc.get("witness") or {}
-    if ("renamed" in w or "idx" in w or "wrapper" in w) and doc.get("python"):   # streams built directly: replayed by their snippet
+    if ("renamed" in w or "idx" in w or "wrapper" in w or "subs" in w) and doc.get("python"):   # streams built directly: replayed by their snippet
         g = {}
         try:
             exec(doc["python"], g)
